@@ -3,10 +3,25 @@ C19 — Keep-alive: silent clients are dropped as failed, active clients never a
 
 The clock, timers and scheduler latency are outside any model (trusted); what is
 proved is the deadline arithmetic over the regenerated expression and constants,
-and the behaviour of the receiver loop as a timed state machine.
+the behaviour of the receiver loop as a timed state machine, and — on the
+connection life-cycle model of C16 (`Model/Lifecycle.lean`) — that a read that
+has timed out always ends in the complete teardown with the will published,
+whatever the connection's buffers look like (`C19_timeout_tears_down`; repair
+b77088f, finding F7: before it a connection whose processor was parked in its
+own outgoing ring behind a client that had stopped reading survived the time-out,
+`C16_old_receiver_wedges`).
+
+What is left open (finding F8): the deadline is armed per socket read, and the
+receiver issues a read only when a whole read block of ring space is free.  A
+client that stops reading AND keeps sending until its writes block fills both
+rings; the receiver then waits for ring space, no read is pending, no deadline is
+armed: `C19_silence_counterexample` (the full statement "silence ends the
+connection" is false of the code), `C19_timeout_tears_down` is the partial one
+(hypothesis: the deadline fired, i.e. a read was pending).
 -/
 import Mqtt.Model.KeepAlive
 import Mqtt.Model.Broker
+import Mqtt.Properties.C16
 
 namespace Mqtt.Properties.C19
 open Mqtt.Model.KeepAlive Mqtt.Generated
@@ -69,5 +84,121 @@ theorem C19_source_shape : keepAliveRearmedPerRead = true ∧ keepAliveZeroMeans
 
 example : deadline 1 = 1200000000 ∧ effective 0 = 30 := by decide
 example : firstExpiry (deadline 1) 0 [(500000000, 0), (1000000000, 3), (1500000000, 0)] true = some 2700000000 := by decide
+
+/-! ## The time-out on the connection life-cycle model -/
+
+section Lifecycle
+open Mqtt.Model.Lifecycle Mqtt.Proofs.Lifecycle Mqtt.Properties.C16
+
+/-- The keep-alive event of the life-cycle model: the read deadline fires exactly on a pending
+socket read of an open connection (it is armed per read: `keepAliveRearmedPerRead`), and all it
+does is make that read fail. -/
+theorem C19_expiry_is_a_read_error (c : Cfg) (s : St) :
+    ((estep c s .kaExpire).isSome = true ↔ (s.recv = .read ∧ s.sh.sock = .open)) ∧
+    (∀ s', estep c s .kaExpire = some s' →
+      s'.sh.timeout = true ∧ s'.recv = .read ∧ rstep c s'.sh 1 s'.recv = some (s'.sh, .close)) := by
+  constructor
+  · simp only [estep]
+    by_cases h : s.recv = .read ∧ s.sh.sock = .open <;> simp [h]
+  · intro s' h
+    simp only [estep] at h
+    by_cases h1 : s.recv = .read ∧ s.sh.sock = .open
+    · rw [if_pos h1] at h; injection h with h; subst h
+      simp [h1.1, rstep]
+    · rw [if_neg h1] at h; cases h
+
+/-- **A read time-out always leads to the complete teardown, with the will published.**  For every
+reachable state of a connection (any buffer contents, any traffic still to come, any interleaving
+so far — in particular: own outgoing ring full, the sender blocked in its socket write, the
+connection's OWN processor parked in that ring behind a client that has stopped reading) in which
+the read deadline has fired, and no delivery of this connection is blocked in ANOTHER connection's
+ring, fair round-robin reaches within `rank` rounds a state in which nothing can run and
+
+* every goroutine of the connection has exited and every `stop()` call has returned,
+* the socket is closed,
+* the effects of `stop()` are complete, exactly once and in order: unsubscribe, the will iff the
+  will flag is still set, session removal iff the session is clean —
+* so the will IS published if the flag was set and the client had not sent a DISCONNECT that the
+  processor has still to consume: the end is treated as abnormal.
+
+Fairness: "round-robin" stands for "an enabled goroutine is eventually run"; no schedule takes more
+than `rank` steps (`C16_teardown_bounded`).  By `C16_read_failure_completes` (hence
+`C16_teardown_completes`, `C16_self_held_not_ended`, `C16_no_deadlock_partial`) and `C16_stop_once`. -/
+theorem C19_timeout_tears_down (c : Cfg) (hw : WF c) (s0 : St) (h0 : Init c s0) (sched : List Label) :
+    let s := reach c s0 sched
+    s.sh.timeout = true → s.sh.extBlocked = false →
+    let q := drain c (rank c s) s
+    quiescent c q = true ∧ Final q = true ∧ TornDown q = true ∧ goroutinesLeft q = 0 ∧
+    q.sh.sock = .closed ∧ q.sh.effects = expectedEffects q.sh ∧
+    (s.sh.willFlag = true → (∀ p, p ∈ s.sh.stream → p.kind ≠ .disconnect) → Eff.will ∈ q.sh.effects) := by
+  intro s hto hx q
+  have hi : Inv c s := (C16_invariant c hw s0 h0 sched).1
+  have hiq : Inv c q := inv_drain c hw _ s hi
+  obtain ⟨sched', hrun, hth⟩ := drain_is_run c (rank c s) s
+  obtain ⟨hq, hcases⟩ := C16_read_failure_completes c hw s0 h0 sched (Or.inl hto)
+  have hxq : q.sh.extBlocked = false := by
+    show (drain c (rank c s) s).sh.extBlocked = false
+    rw [hrun, (persist_run c hw s sched' hth).2.2]; exact hx
+  rcases hcases with ⟨hf, ht, he, hg⟩ | h
+  · refine ⟨hq, hf, ht, hg, ?_, he, ?_⟩
+    · have hr : q.recv = .exited := by
+        simp only [Final, Bool.and_eq_true, beq_iff_eq] at hf
+        exact hf.1.1.1.1
+      exact hiq.r.rsock (by simp [hr, RPc.sockClosed])
+    · intro hwf hnd
+      have hwq : q.sh.willFlag = true := by
+        show (drain c (rank c s) s).sh.willFlag = true
+        rw [hrun, (noDisc_run c s sched' hth hnd).2]; exact hwf
+      have hin : Eff.will ∈ expectedEffects q.sh := by simp [expectedEffects, hwq]
+      rw [he]; exact hin
+  · exfalso
+    have h1 : q.sh.extBlocked = true := by
+      simp only [HeldByThird, Bool.and_eq_true] at h; exact h.1
+    rw [hxq] at h1; cases h1
+
+/-- the client answers its own traffic (4-byte packets answered with 12 bytes), stops reading and
+keeps sending: 16 bytes on the wire -/
+def floodInit : St :=
+  { sh := { stream := List.replicate 4 ⟨2, 4, .normal [.own 12]⟩, wire := 16, willFlag := true } }
+
+/-- the receiver takes 8 bytes, the processor answers the first packet and parks in `WriteWait` for
+the answer to the second, the receiver takes the other 8 bytes (incoming ring: 12 of 16) and then
+waits for a read block of free space; the sender's write blocks -/
+def floodSched : List Label :=
+  [.env (.peerReads false), .th .recv 0, .th .recv 8, .th .recv 0] ++ List.replicate 11 (.th .proc 0) ++
+  [.th .recv 0, .th .recv 8, .th .recv 0, .th .send 0]
+
+/-- **The full statement is false of the code** (finding F8, open): a reachable state of the
+repaired model — initial state `floodInit`, schedule `floodSched`, every step of which is taken — in
+which the client has sent everything it will ever send, and however long it stays silent nothing
+happens: the receiver waits for ring space, so no socket read is pending and the read deadline is
+not armed (`kaExpire` is not enabled); the processor is parked in the connection's own outgoing
+ring; the sender is blocked in its write.  The connection has not ended, is never torn down, its
+will is never published. -/
+theorem C19_silence_counterexample :
+    WF c0 ∧ Init c0 floodInit ∧
+    (let s := reach c0 floodInit floodSched
+     taken c0 floodInit floodSched = floodSched.length ∧ s.sh.wire = 0 ∧
+     s.recv = .space ∧ s.proc = .ownWait 12 [] ∧ s.send = .write 8 ∧ HeldBySelf s = true ∧
+     quiescent c0 s = true ∧ estep c0 s .kaExpire = none ∧ Ended s = false ∧ s.sh.effects = [] ∧
+     ∀ sched, (∀ l, l ∈ sched → (∃ t k, l = .th t k) ∨ l = .env .kaExpire) → run c0 s sched = s) := by
+  refine ⟨c0_wf, ?_, by decide, by decide, by decide, by decide, by decide, by decide, by decide, by decide,
+    by decide, by decide, ?_⟩
+  · refine ⟨rfl, rfl, rfl, rfl, rfl, rfl, rfl, rfl, rfl, ?_, ?_, rfl, rfl, rfl⟩
+    · intro k hk; cases hk
+    · intro w hw; cases hw
+  · intro sched hs
+    exact silent_stuck c0 _ (by decide) (by decide) sched hs
+
+/-- non-vacuity of `C19_timeout_tears_down`: the self-held connection of `C16_old_receiver_wedges`
+(own outgoing ring full, processor parked behind its own client) with the deadline fired: round-robin
+tears it down and publishes the will -/
+example :
+    let s := reach c0 selfInit selfSched
+    s.sh.timeout = true ∧ s.sh.extBlocked = false ∧ s.proc = .ownWait 12 [] ∧ s.sh.willFlag = true ∧
+    (let q := drain c0 (rank c0 s) s
+     Final q = true ∧ q.sh.sock = .closed ∧ Eff.will ∈ q.sh.effects) := by decide
+
+end Lifecycle
 
 end Mqtt.Properties.C19
